@@ -29,6 +29,7 @@ from sqvm.shapes import shapes, instantiate, describe, has_opaque, ShapeError
 from sqvm.prove import Prover, StopJob
 from sqvm.corpus import std_sources, example_sources, test_sources, spec_sources
 from sqvm.gen_calls import programs as gen_call_programs
+from sqvm.gen_tail import programs as gen_tail_programs
 
 PROP = "C01"
 MAX_SHAPES = 24
@@ -319,6 +320,13 @@ def main():
     for g in gen:
         jobs.append((g["name"], g["src"], timeout_ms, rep.seed, 4, shape_budget_s,
                      g["defs"] + "f = " + g["fn"] + ",\n{LIT} f"))
+    # generated tail-call shapes: every function kind x argument form x target x position the
+    # compiler accepts, applied to every value of its parameter type
+    gt = [(n, s) for n, s in gen_tail_programs() if not n.split("/")[1].startswith("proc")]
+    if tier == "quick":
+        gt = [(n, s) for n, s in gt if n.rsplit("/", 1)[1] in ("0", "3", "6")]
+    for n, s in gt:
+        jobs.append((n, s + ",\n&f", timeout_ms, rep.seed, 2, shape_budget_s, s + ",\n{LIT} f"))
     with mp.Pool(16) as pool:
         results = pool.map(check_program, jobs, chunksize=1)
     progs = 0
